@@ -71,7 +71,12 @@ func Topo(kind string, shape PathShape, goFunc bool, root string, n int) *spec.S
 		var od []spec.PortDecl
 		p := &spec.Proc{Name: name, Kind: kind}
 		for _, o := range outs {
-			od = append(od, spec.PortDecl{Name: o})
+			if strings.HasSuffix(o, "/") { // a directory output
+				o = strings.TrimSuffix(o, "/")
+				od = append(od, spec.PortDecl{Name: o, Dir: true})
+			} else {
+				od = append(od, spec.PortDecl{Name: o})
+			}
 			hasIn := false
 			for _, i := range ins {
 				if i.Name == "in" {
@@ -148,6 +153,13 @@ func Topo(kind string, shape PathShape, goFunc bool, root string, n int) *spec.S
 		conn("src.out", "A.in")
 		conn("A.out", "CC.in")
 		conn("CC.out", "B.in")
+	case "dirout":
+		// A's declared output is a directory (mkdir + files inside), consumed by B
+		addSrc("src", n)
+		addProc("A", in, []string{"out/"}, nil, nil, spec.KCmd)
+		addProc("B", in, []string{"out"}, nil, nil, spec.KCmd)
+		conn("src.out", "A.in")
+		conn("A.out", "B.in")
 	case "extra":
 		addSrc("src", n)
 		addProc("A", in, []string{"out"}, nil, nil, spec.KCmd)
